@@ -238,6 +238,13 @@ Definition clmul (q g : N) : N := match q with N0 => 0 | Npos p => clmul_pos p g
 (* the message as a polynomial: first byte = highest coefficients (MSB-first convention) *)
 Definition msg_poly (data : list N) : N := fold_left (fun acc b => N.lor (N.shiftl acc 8) b) data 0.
 
+(* the bits fed so far as a polynomial (first bit = highest coefficient) *)
+Definition bitval (acc : N) (b : bool) : N := N.lor (N.double acc) (if b then 1 else 0).
+Definition bits_val (bs : list bool) : N := fold_left bitval bs 0.
+
 (* B.5  hash closed form:  v*mul^n + sum s_i * mul^(n-1-i)   (mod 2^32)  *)
 Fixpoint horner (mul : N) (s : list N) (acc : N) : N :=
   match s with [] => acc | b :: r => horner mul r (acc * mul + b) end.
+
+Fixpoint hash_sum (mul : N) (s : list N) : N :=
+  match s with [] => 0 | b :: r => b * mul ^ N.of_nat (length r) + hash_sum mul r end.
